@@ -9,8 +9,10 @@
     The python side only builds inputs, logs what happened and names the state of the bytes.
 """
 
+import contextlib
 import gc
 import hashlib
+import io
 import json
 import logging
 import os
@@ -412,11 +414,95 @@ def observe_dir(case: dict, scratch: str = None) -> dict:
             "after": _state_of(after)}
 
 
+class _StopAfterTheGuard(Exception):
+    """ ends a command line run once the output directory has been examined and accepted """
+
+
+def observe_dir_cli(case: dict, scratch: str = None) -> dict:
+    """ The same directory configuration met by the command line entry point: `antismash in.gbk` run in a working
+        directory whose default output directory (named after the input) is in the configured state. Prerequisite checks
+        are skipped (no databases or binaries here) and the run is stopped where pre-processing would start, i.e. right
+        after the directory was examined; everything before that point is the real code. """
+    from unittest import mock
+    from ..common import import_repo
+    import_repo()
+    import antismash.__main__ as cli
+    from antismash import main as core
+    from antismash.common.test.helpers import get_path_to_nisin_genbank
+    from antismash.config import destroy_config
+    logging.disable(logging.CRITICAL)
+    base = tempfile.mkdtemp(prefix="c20c_", dir=scratch)
+    out = os.path.join(base, "in")
+    contents = list(case["contents"])
+    if case["state"] == "file":
+        with open(out, "wb") as handle:
+            handle.write(b"a file where the directory should be\n")
+    elif case["state"] == "dir":
+        os.mkdir(out)
+        for item in contents:
+            for rel in ITEM_PATHS[item]:
+                path = os.path.join(out, rel)
+                if rel.endswith("/"):
+                    os.mkdir(path)
+                else:
+                    with open(path, "wb") as handle:
+                        handle.write(OLD_BYTES if item == "json" else f"previous {item}: {rel}\n".encode())
+    shutil.copy(get_path_to_nisin_genbank(), os.path.join(base, "in.gbk"))
+    before = _snapshot(out)
+    here = os.getcwd()
+    exc = ""
+
+    def stop(*_args, **_kwargs):
+        raise _StopAfterTheGuard()
+
+    destroy_config()
+    try:
+        os.chdir(base)
+        with mock.patch.object(core, "check_prerequisites", return_value=None), \
+                mock.patch.object(core, "_log_found_executables", return_value=None), \
+                mock.patch.object(cli, "get_git_version", return_value="verif"), \
+                mock.patch.object(core.record_processing, "pre_process_sequences", side_effect=stop), \
+                contextlib.redirect_stderr(io.StringIO()), contextlib.redirect_stdout(io.StringIO()):
+            try:
+                code = cli.main(["in.gbk", "--minimal"])
+                exc = "AntismashInputError" if code == 1 else f"exit {code}"
+            except _StopAfterTheGuard:
+                exc = ""
+            except SystemExit as err:
+                exc = f"SystemExit {err.code}"
+            except Exception as err:  # pylint: disable=broad-except
+                exc = type(err).__name__
+    finally:
+        os.chdir(here)
+        destroy_config()
+    after = _snapshot(out)
+    status = {}
+    for item in ITEMS:
+        if item not in contents:
+            status[item] = "absent"
+            continue
+        rels = ITEM_PATHS[item]
+        same = [rel in after and after[rel] == before[rel] for rel in rels]
+        gone = [rel not in after for rel in rels]
+        status[item] = "same" if all(same) else ("missing" if all(gone) else "changed")
+    extra = len([rel for rel in after if rel not in before and rel != "."])
+    if case["state"] == "file" and after.get(".") != before.get("."):
+        extra += 1
+    shutil.rmtree(base, ignore_errors=True)
+    plain = {k: v for k, v in case.items() if k != "via"}
+    return {"op": "dir", "d": dict(plain, contents=contents), "via": "cli", "ret": {"exc": exc}, "status": status,
+            "extra": extra, "after": _state_of(after)}
+
+
+def _dir_func(case):
+    return observe_dir_cli if case.get("via") == "cli" else observe_dir
+
+
 def _observe_many(job):
     scratch, cases = job
     out = []
     for case in cases:
-        func = observe_target if case["op"] == "target" else observe_dir if case["op"] != "write" else (
+        func = observe_target if case["op"] == "target" else _dir_func(case["input"]) if case["op"] != "write" else (
             observe_pipeline_write if case["input"]["writer"] == "run_antismash" else observe_write)
         event = func(case["input"], scratch)
         event["id"] = case["id"]
@@ -457,11 +543,12 @@ def _features(op, case):
     if op == "write":
         return sorted({case["writer"], "fault_" + case["fault"]["phase"], "kind_" + case["fault"]["kind"]})
     return sorted({"mode_" + case["mode"], "state_" + case["state"], "logfile_configured" if case["logcfg"] else
-                   "no_logfile"} | {"has_" + item for item in case["contents"]})
+                   "no_logfile", "via_" + case.get("via", "prepare_output_directory")}
+                  | {"has_" + item for item in case["contents"]})
 
 
 def _call_text(op, case):
-    func = "observe_target" if op == "target" else "observe_dir" if op != "write" else (
+    func = "observe_target" if op == "target" else _dir_func(case).__name__ if op != "write" else (
         "observe_pipeline_write" if case.get("writer") == "run_antismash" else "observe_write")
     return f"from harness.props import c20; c20.{func}({case!r})"
 
@@ -542,7 +629,12 @@ def run(ctx):
     cases += [{"op": "write", "input": {"nrec": nrec, "nmod": 1, "writer": "run_antismash",
                                         "fault": {"phase": "convert", "i": i, "j": 1, "kind": "InvalidType"}}}
               for nrec in (1, 3) for i in sorted({1, nrec})]
-    cases += [{"op": "dir", "input": case} for case in _dir_cases(dirs)]
+    dir_configs = _dir_cases(dirs)
+    cases += [{"op": "dir", "input": case} for case in dir_configs]
+    # the same guard met from the command line with the default output directory (named after the input): fresh runs
+    # without a log file; every such configuration in the thorough tier, those of at most two items in the quick one
+    cases += [{"op": "dir", "input": dict(case, via="cli")} for case in dir_configs
+              if case["mode"] == "fresh" and not case["logcfg"] and (not ctx.quick or len(case["contents"]) <= 2)]
     # where the result files go: input files with and without compression suffix, named with and without a directory
     cases += [{"op": "target", "input": {"name": name, "dir": where}}
               for name in ("seq.gbk", "seq.gbk.gz", "seq.fa.bz", "genome.v2.gb.xz", "SEQ.GBK.GZ", "seq.gz")
@@ -579,7 +671,8 @@ def run(ctx):
                 "exception, unserialisable value; an unserialisable top-level field) and every directory configuration "
                 "(absent / a file / a directory holding any subset of input copy, log file, region files, results json, "
                 "other file, other directory, dot-file) x mode fresh/reuse x log file configured or not; each is executed "
-                "once against the real code; plus the writer's call site: run_antismash in reuse mode with results of an unknown module "
+                "once against the real code (the directory configurations of fresh runs without a log file also through the command line entry point "
+                "with the default output directory); plus the writer's call site: run_antismash in reuse mode with results of an unknown module "
                 "in the first / last record; non-trivial = a fault is planted / the directory is not empty")
     ctx.notes["write_cases"] = len(writes)
     ctx.notes["dir_cases"] = len(dir_cases)
@@ -601,7 +694,7 @@ def replay(ctx, record):
     op = "write" if "writer" in case else "dir"
     if "name" in case:
         op = "target"
-    func = observe_target if op == "target" else observe_dir if op != "write" else (
+    func = observe_target if op == "target" else _dir_func(case) if op != "write" else (
         observe_pipeline_write if case["writer"] == "run_antismash" else observe_write)
     event = func(case, ctx.workdir)
     event["id"] = 0
